@@ -152,6 +152,9 @@ class EightDotThree:
             return False
         elif len(root) > 8 or len(ext) > 3:
             return False
+        elif root != root.strip() or ext != ext.strip():
+            # Padding would swallow leading/trailing whitespace
+            return False
 
         # Check for valid characters in both filename segments
         for i in [root, ext]:
@@ -214,6 +217,12 @@ class EightDotThree:
             return _name
 
         dir_name = dir_name.upper()
+        if dir_name not in dir_entries and \
+                EightDotThree.is_8dot3_conform(dir_name,
+                                               parent_dir_entry._encoding):
+            # Name already fits 8.3 as it is (i.e. with embedded spaces)
+            return dir_name
+
         # Shorten to 8 chars; strip invalid characters
         basename = os.path.splitext(dir_name)[0][0:8].strip()
         basename = basename.encode(parent_dir_entry._encoding,
